@@ -378,7 +378,9 @@ def iter_safe_relabels(mapping: collections.abc.Mapping[Variable, Variable],
 
     if len(new_labels) < len(mapping):
         for old, new in mapping.items():
-            if new_labels[new] != old:
+            # like dict, test the hash first. Some labels, e.g. NumPy integers
+            # and tuples, do not compare to a bool
+            if hash(new_labels[new]) != hash(old) or new_labels[new] != old:
                 raise ValueError("cannot map two items to the same label: "
                                  f"{old!r} and {new_labels[new]!r} are both mapped to {new!r}")
         raise RuntimeError  # should never get here, but just in case...
